@@ -123,7 +123,9 @@ pub fn selected(fam: &Family, sc: &Scenario, out: &RunOut, an: &Analysis) -> Vec
     let mut v: Vec<Viol> = an
         .viols
         .iter()
-        .filter(|x| fam.tags.contains(&x.tag))
+        // A panic that no scenario script asked for (raised by the library or by the harness
+        // arithmetic on absurd values) is a violation whatever the family looks at.
+        .filter(|x| fam.tags.contains(&x.tag) || x.tag == "unexpected_panic")
         .cloned()
         .collect();
     if let Some(e) = fam.extra {
